@@ -79,12 +79,13 @@ def transient(r):
 
 
 # ------------------------------------------------------------------ abstract graphs
-# node: ["v"] | ["a", atom] | ["s", f, [children]] | ["l", h, t] | ["p", chars, t] | ["q", chars]
+# node: ["v"] | ["a", atom] | ["s", f, [children]] | ["l", h, t] | ["d", h, t] | ["p", chars, t] | ["q", chars]
+# ("d" = a '.'/2 structure cell instead of a list cell; same term)
 
 def children(n):
     if n[0] == "s":
         return list(n[2])
-    if n[0] == "l":
+    if n[0] in ("l", "d"):
         return [n[1], n[2]]
     if n[0] == "p":
         return [n[2]]
@@ -106,7 +107,7 @@ def model_graph(nodes):
             out[i] = ("a", ACODE[n[1]])
         elif n[0] == "s":
             out[i] = ("s", FCODE[n[1]], list(n[2]))
-        elif n[0] == "l":
+        elif n[0] in ("l", "d"):
             out[i] = ("s", 1, [n[1], n[2]])
         else:
             chars = n[1]
@@ -204,7 +205,7 @@ def render_build(nodes, rng, style):
         nd = nodes[j]
         if nd[0] == "a" and rng.random() < 0.6 and not (NOSTR and lhead):
             return pl_atom(nd[1])
-        if nd[0] in ("s", "l") and indeg[j] == 1 and len(stack) < 3 and j not in stack and j not in keep \
+        if nd[0] in ("s", "l", "d") and indeg[j] == 1 and len(stack) < 3 and j not in stack and j not in keep \
                 and rng.random() < 0.3:
             return rhs(j, stack + [j], in_head)
         if not in_head and rng.random() < 0.15:
@@ -221,6 +222,9 @@ def render_build(nodes, rng, style):
             return "%s(%s)" % (nd[1], ",".join(ref(c, stack, in_head) for c in nd[2]))
         if nd[0] == "l":
             return "[%s|%s]" % (ref(nd[1], stack, in_head, True), ref(nd[2], stack, in_head))
+        if nd[0] == "d":
+            # a '.'/2 STRUCTURE cell: only the reader builds one, for infix `H '.' T` under op(200,xfy,'.')
+            return "(%s '.' %s)" % (ref(nd[1], stack, in_head), ref(nd[2], stack, in_head))
         if nd[0] == "q":
             return '"%s"' % "".join(nd[1])
         raise ValueError(nd)
@@ -286,13 +290,14 @@ def make_case(cid, nodes, a, b, k, seed, kind):
     rng = random.Random(seed)
     prog = render_case(cid, nodes, a, b, k, rng, kind)
     mg = model_graph(nodes)
+    dot = any(nd[0] == "d" for nd in nodes)
     impl = [HELPER_LINE % cid,
-            "Q\t%s_u\t1\tuse_module(library(iso_ext))." % cid,
+            "Q\t%s_u\t1\tuse_module(library(iso_ext))%s." % (cid, ", op(200, xfy, (.))" if dot else ""),
             "L\t%s_l\tuser\t%s" % (cid, "\\n".join(prog)),
             "Q\t%s_a\t2\tc24a_%s(R)." % (cid, cid),
             "Q\t%s_b\t2\tc24b_%s(R)." % (cid, cid)]
     model = ["case\t%s\t%d %d %d %s" % (cid, k, a, b, model_tokens(mg))]
-    return {"id": cid, "nodes": nodes, "a": a, "b": b, "k": k, "seed": seed, "kind": kind,
+    return {"id": cid, "nodes": nodes, "a": a, "b": b, "k": k, "seed": seed, "kind": kind, "dot": dot,
             "impl": impl, "model": model, "prolog": prog}
 
 
@@ -413,6 +418,80 @@ def gen_cases(rng, count, tag, nmax):
     return cases
 
 
+def gen_dot_cases(rng, count, tag):
+    """graphs in which some list cells are '.'/2 STRUCTURE cells (the other presentation of the same
+    term); run one case per harness process under a wall-clock limit, see run_dot."""
+    out = []
+    while len(out) < count:
+        c = gen_cases(rng, 1, "x", 5)[0]
+        nodes = [list(nd) for nd in c["nodes"]]
+        ls = [i for i, nd in enumerate(nodes) if nd[0] == "l"]
+        if not ls:
+            continue
+        for i in ls:
+            if rng.random() < 0.5:
+                nodes[i][0] = "d"
+        if not any(nd[0] == "d" for nd in nodes):
+            nodes[rng.choice(ls)][0] = "d"
+        out.append(make_case("%s%d" % (tag, len(out)), nodes, c["a"], c["b"], c["k"], c["seed"], "body"))
+    return out
+
+
+def fixed_dot_cases():
+    F = []
+
+    def add(nodes, a, b):
+        F.append(make_case("fd%d" % len(F), nodes, a, b, 3, 11 + len(F), "body"))
+    add([["d", 1, 0], ["a", 1], ["l", 3, 2], ["a", 1]], 0, 2)     # A = (1 '.' A), B = [1|B]
+    add([["l", 1, 0], ["a", 1], ["d", 3, 2], ["a", 1]], 0, 2)     # the other way round
+    add([["d", 1, 0], ["a", 1], ["d", 3, 2], ["a", 1]], 0, 2)
+    add([["d", 1, 2], ["a", 0], ["a", "[]"], ["l", 4, 5], ["a", 0], ["a", "[]"]], 0, 3)    # finite
+    return F
+
+
+def run_dot(cases, limit=10):
+    """each case in its own harness process; a process that does not finish within `limit` seconds is
+    killed and its unanswered queries are reported as `hang` (a loop inside a builtin cannot be
+    interrupted by the harness watchdog)."""
+    import subprocess
+    import os as _os
+    from concurrent.futures import ThreadPoolExecutor
+    env = dict(_os.environ)
+    env.update(IMPL_ENV)
+
+    def one(c, lim):
+        data = "\n".join(c["impl"]) + "\n"
+        try:
+            p = subprocess.run([core.HARNESS_BIN], input=data, stdout=subprocess.PIPE, stderr=subprocess.PIPE,
+                               text=True, env=env, timeout=lim, errors="replace")
+            out = p.stdout
+        except subprocess.TimeoutExpired as e:
+            out = e.stdout or ""
+            if isinstance(out, bytes):
+                out = out.decode("utf-8", "replace")
+        res = {}
+        for l in out.split("\n"):
+            if l:
+                i, _, r = l.partition("\t")
+                res[i] = r
+        for l in c["impl"]:
+            if l.startswith("Q\t") and core.line_id(l) not in res:
+                res[core.line_id(l)] = "hang(no answer within %d s; not interruptible)" % lim
+                break      # later queries were never started
+        return res
+    impl = {}
+    with ThreadPoolExecutor(max_workers=6) as ex:
+        for r in ex.map(lambda c: one(c, limit), cases):
+            impl.update(r)
+    # a hang is believed only when it repeats with twice the time, alone
+    again = [c for c in cases if any(impl.get(core.line_id(l), "").startswith("hang") for l in c["impl"])]
+    with ThreadPoolExecutor(max_workers=4) as ex:
+        for r in ex.map(lambda c: one(c, 2 * limit + 5), again):
+            impl.update(r)
+    model = core.run_model([l for c in cases for l in c["model"]])
+    return impl, model
+
+
 def fixed_cases():
     """the classic shapes named in the property text and in the builder's task."""
     F = []
@@ -485,6 +564,7 @@ def features(c):
     atroot = any(stringish(i) for i in (c["a"], c["b"]))
     return {"string_below_root": "yes" if below else "no", "string_at_root": "yes" if atroot else "no",
             "cyclic": "no" if ref_acyclic(mg, c["a"]) and ref_acyclic(mg, c["b"]) else "yes",
+            "strdot": "yes" if any(nodes[i][0] == "d" for r in (c["a"], c["b"]) for i in ref_reach(mg, r) if i < n) else "no",
             "build": c["kind"]}
 
 
@@ -513,7 +593,9 @@ def judge(c, impl, model):
         r = impl.get("%s_%s" % (cid, part), "missing")
         iv = parse_R(r)
         if iv is None:
-            what = "panic" if r.startswith("panic") else ("timeout" if r.startswith("timeout") else "no-answer")
+            what = "panic" if r.startswith("panic") else ("timeout" if r.startswith("timeout") else ("hang" if r.startswith("hang") else "no-answer"))
+            if r == "missing" and c.get("dot"):
+                continue        # never started: the previous query of the case hung
             sig = {"family": "graph", "part": "acyclic_term" if part == "a" else "other-builtins", "what": what}
             sig.update(feat)
             cc = slim(c)
@@ -564,7 +646,8 @@ def run_with_retry(cases, batch=25):
         batches.append({"id": "batch%d" % i, "impl": lines})
     models = [{"id": c["id"] + "_m", "model": c["model"]} for c in graph]
     impl, model = diff.run_cases(batches + other + models, impl_env=IMPL_ENV)
-    flaky = [c for c in cases if any(needs_rerun(impl.get(core.line_id(l), "missing")) for l in c["impl"] if l.startswith("Q\t"))]
+    flaky = [c for c in cases if any(needs_rerun(impl.get(core.line_id(l), "missing")) for l in c["impl"]
+                                     if l.startswith("Q\t") and not l.startswith("Q\t%s_u" % c["id"]))]
     retried = len(flaky)
     # second pass: every query of an affected case gets its own complete set-up in front of it (a
     # panic discards the machine; the next line starts a new one), so no line depends on another
@@ -607,8 +690,17 @@ def run(ctx):
             cases += gen_cases(rng, 6000, "m", 8)
             cases += gen_cases(rng, 2000, "b", 12)
         specials = special_cases()
+    dots = [c for c in cases if c.get("dot")]
+    cases = [c for c in cases if not c.get("dot")]
+    if rep is None:
+        dots += fixed_dot_cases() + gen_dot_cases(rng, 20 if tier == "quick" else 300, "d")
     t0 = time.time()
     impl, model, retried = run_with_retry(cases + specials)
+    if dots:
+        impl_d, model_d = run_dot(dots)
+        impl.update(impl_d)
+        model.update(model_d)
+        cases = cases + dots
     core.log("[C24] correspondence run: %d cases, %.1fs, %d re-run alone" % (len(cases), time.time() - t0, retried))
     findings, agree = [], 0
     distinct = set()
